@@ -968,9 +968,19 @@ func scanOutLevel(c *core.Ctx) []ob {
 						}
 					}
 				}
-				// in-place calls (the output is also an input of the callee) keep the output's own level
+				// in-place calls (the output is also an input of the callee) keep the output's own level;
+				// the callee must itself (transitively) resize what it receives there
 				if asOut && !asIn {
-					found = "delegated to " + f.Name() + " at " + c.Rel(call.Pos())
+					resizes := false
+					for i, a := range call.Args {
+						at := exprString(unparen(a))
+						if (at == outElem || at == outElem+".El()") && outLevelResizers(c)[funcOrigin(f)][i] {
+							resizes = true
+						}
+					}
+					if resizes {
+						found = "delegated to " + f.Name() + " at " + c.Rel(call.Pos())
+					}
 				}
 				return true
 			})
@@ -1045,7 +1055,7 @@ func scanOutLevel(c *core.Ctx) []ob {
 func init() {
 	all := []string{"C03", "C04", "C05", "C06", "C11", "C12", "C13", "C16", "C20"}
 	core.Register(&core.Rule{Name: "OUTLEVEL", Props: all,
-		Doc: "a working level defined as the minimum of element levels (or returned by InitOutput*Op for the output) is applied by a Resize(…, level) call to one of those elements",
+		Doc: "a working level defined as the minimum of element levels (or returned by InitOutput*Op for the output) is applied by a Resize(…, level) call to one of those elements, or the output is handed (in an output position, not in place) to a callee that itself resizes what it receives there (least fixpoint over the module)",
 		Run: func(c *core.Ctx) []ob {
 			out := scanOutLevel(c)
 			for _, o := range core.Floor("OUTLEVEL", nil, "working-level definitions", c.Stats["outlevel_defs"], 40) {
@@ -1056,4 +1066,121 @@ func init() {
 			}
 			return out
 		}})
+}
+
+// outLevelResizers: (function, parameter index) pairs such that the function resizes the element it receives at that
+// position (a Resize / Copy / whole-element assignment through the parameter) or hands it, in an output position, to a
+// function that does. Least fixpoint over the module.
+var outLevelResizersCache = map[*core.Program]map[*types.Func]map[int]bool{}
+
+func outLevelResizers(c *core.Ctx) map[*types.Func]map[int]bool {
+	if r, ok := outLevelResizersCache[c.Program]; ok {
+		return r
+	}
+	res := map[*types.Func]map[int]bool{}
+	type fdecl struct {
+		pk  *packages.Package
+		fd  *ast.FuncDecl
+		fn  *types.Func
+		idx map[types.Object]int
+	}
+	var decls []fdecl
+	c.FuncDecls(func(pk *packages.Package, file *ast.File, fd *ast.FuncDecl) {
+		if fd.Body == nil || fileIsTestSupport(c.Program, fd.Pos()) {
+			return
+		}
+		fn, _ := pk.TypesInfo.Defs[fd.Name].(*types.Func)
+		if fn == nil {
+			return
+		}
+		sig := fn.Type().(*types.Signature)
+		idx := map[types.Object]int{}
+		for i := 0; i < sig.Params().Len(); i++ {
+			idx[sig.Params().At(i)] = i
+		}
+		decls = append(decls, fdecl{pk, fd, funcOrigin(fn), idx})
+	})
+	set := func(f *types.Func, i int) bool {
+		if res[f] == nil {
+			res[f] = map[int]bool{}
+		}
+		if res[f][i] {
+			return false
+		}
+		res[f][i] = true
+		return true
+	}
+	paramOf := func(info *types.Info, d fdecl, e ast.Expr) (int, bool) {
+		e = unparen(e)
+		if c2, ok := e.(*ast.CallExpr); ok && len(c2.Args) == 0 {
+			if s2, ok := unparen(c2.Fun).(*ast.SelectorExpr); ok && s2.Sel.Name == "El" {
+				e = unparen(s2.X)
+			}
+		}
+		if u, ok := e.(*ast.UnaryExpr); ok && u.Op == token.AND {
+			e = unparen(u.X)
+		}
+		// through Value: shareOut.Value.Resize(levelQ)
+		for {
+			if se, ok := e.(*ast.SelectorExpr); ok && (se.Sel.Name == "Value" || se.Sel.Name == "Element") {
+				e = unparen(se.X)
+				continue
+			}
+			break
+		}
+		id, ok := e.(*ast.Ident)
+		if !ok {
+			return 0, false
+		}
+		i, ok := d.idx[info.Uses[id]]
+		return i, ok
+	}
+	for iter := 0; iter < 10; iter++ {
+		changed := false
+		for _, d := range decls {
+			info := d.pk.TypesInfo
+			ast.Inspect(d.fd.Body, func(x ast.Node) bool {
+				switch v := x.(type) {
+				case *ast.CallExpr:
+					if sel, ok := unparen(v.Fun).(*ast.SelectorExpr); ok && (sel.Sel.Name == "Resize" || sel.Sel.Name == "Copy") {
+						if i, ok := paramOf(info, d, sel.X); ok {
+							if set(d.fn, i) {
+								changed = true
+							}
+						}
+					}
+					if f := calleeFunc(info, v); f != nil {
+						fo := funcOrigin(f)
+						for ai, a := range v.Args {
+							if res[fo][ai] {
+								if i, ok := paramOf(info, d, a); ok {
+									if set(d.fn, i) {
+										changed = true
+									}
+								}
+							}
+						}
+					}
+				case *ast.AssignStmt:
+					for _, l := range v.Lhs {
+						if st, ok := unparen(l).(*ast.StarExpr); ok {
+							if i, ok := paramOf(info, d, st.X); ok {
+								if t := info.TypeOf(st.X); t != nil && isMetaCarrier(deref(t)) {
+									if set(d.fn, i) {
+										changed = true
+									}
+								}
+							}
+						}
+					}
+				}
+				return true
+			})
+		}
+		if !changed {
+			break
+		}
+	}
+	outLevelResizersCache[c.Program] = res
+	return res
 }
